@@ -57,6 +57,21 @@ def check_subseq(n, mask, alphabet):
         return f"mask_from_subseq({sub}, {parent}) = {bin(back)}, expected {bin(mask)}"
     if mask_from_subseq(tuple(sub), tuple(parent)) != mask:
         return f"mask_from_subseq on tuples differs for {sub}"
+    # subsequence and parent given as DIFFERENT kinds of sequence (itertools.combinations yields tuples, JSON yields lists)
+    if mask_from_subseq(tuple(sub), parent) != mask or mask_from_subseq(sub, tuple(parent)) != mask:
+        return f"mask_from_subseq with a tuple on one side and a list on the other differs for {sub} in {parent}"
+    if list(subseq_from_mask(mask, tuple(parent))) != sub:
+        return f"subseq_from_mask({bin(mask)}, tuple) = {subseq_from_mask(mask, tuple(parent))}, expected {sub}"
+    if n <= 26 and alphabet(0) == 0:
+        # one-character strings: the parent as a str, the subsequence as a list of characters, and the other way round
+        text = "".join(chr(97 + i) for i in range(n))
+        chars = [text[i] for i in range(n) if mask >> i & 1]
+        if mask_from_subseq(chars, text) != mask or mask_from_subseq("".join(chars), list(text)) != mask:
+            return f"mask_from_subseq with a str on one side and a list of characters on the other differs for {chars} in {text!r}"
+        if list(subseq_from_mask(mask, text)) != chars:
+            return f"subseq_from_mask({bin(mask)}, {text!r}) = {subseq_from_mask(mask, text)!r}, expected {chars}"
+        if mask_from_subseq(range(0), range(n)) != 0 or mask_from_subseq([i for i in range(n) if mask >> i & 1], range(n)) != mask:
+            return f"mask_from_subseq against a range parent differs for mask {bin(mask)}"
     return None
 
 
